@@ -283,6 +283,9 @@ func judgeTime(wd, h, m, s uint8) (mech, msg string) {
 	if p, v := enumlib.Try(func() { enc = in.Pack(); err = out.Unpack(enc) }); p {
 		return "panic", fmt.Sprintf("DPT 10.001 %+v: panic %s", *in, v)
 	}
+	if mech, msg := reusedReceiver(in, out, enc, err); mech != "" {
+		return mech, msg
+	}
 	head := fmt.Sprintf("DPT 10.001 %+v Pack=% x", *in, enc)
 	if len(enc) != 4 || enc[0] != 0 {
 		return "shape", head + " — expected 4 octets with a zero leading octet"
@@ -362,6 +365,9 @@ func judgeDate(y uint16, m, d uint8) (mech, msg string) {
 	if p, v := enumlib.Try(func() { enc = in.Pack(); err = out.Unpack(enc) }); p {
 		return "panic", fmt.Sprintf("DPT 11.001 %+v: panic %s", *in, v)
 	}
+	if mech, msg := reusedReceiver(in, out, enc, err); mech != "" {
+		return mech, msg
+	}
 	head := fmt.Sprintf("DPT 11.001 %+v Pack=% x", *in, enc)
 	if len(enc) != 4 || enc[0] != 0 {
 		return "shape", head + " — expected 4 octets with a zero leading octet"
@@ -433,6 +439,9 @@ func judgeRGB(rr, g, b uint8) (mech, msg string) {
 	if p, v := enumlib.Try(func() { enc = in.Pack(); err = out.Unpack(enc) }); p {
 		return "panic", fmt.Sprintf("DPT 232.600 %+v: panic %s", *in, v)
 	}
+	if mech, msg := reusedReceiver(in, out, enc, err); mech != "" {
+		return mech, msg
+	}
 	head := fmt.Sprintf("DPT 232.600 %+v Pack=% x", *in, enc)
 	if !bytes.Equal(enc, []byte{0, rr, g, b}) {
 		return "shape", head + " — expected 00 R G B"
@@ -459,6 +468,9 @@ func judgeXYY(x, y uint16, br uint8, cv, bv bool) (mech, msg string) {
 	var err error
 	if p, v := enumlib.Try(func() { enc = in.Pack(); err = out.Unpack(enc) }); p {
 		return "panic", fmt.Sprintf("DPT 242.600 %+v: panic %s", *in, v)
+	}
+	if mech, msg := reusedReceiver(in, out, enc, err); mech != "" {
+		return mech, msg
 	}
 	head := fmt.Sprintf("DPT 242.600 %+v Pack=% x", *in, enc)
 	if len(enc) != 7 || !bytes.Equal(enc[:6], []byte{0, byte(x >> 8), byte(x), byte(y >> 8), byte(y), br}) {
@@ -490,6 +502,9 @@ func judgeRGBW(c [4]uint8, f [4]bool) (mech, msg string) {
 	var err error
 	if p, v := enumlib.Try(func() { enc = in.Pack(); err = out.Unpack(enc) }); p {
 		return "panic", fmt.Sprintf("DPT 251.600 %+v: panic %s", *in, v)
+	}
+	if mech, msg := reusedReceiver(in, out, enc, err); mech != "" {
+		return mech, msg
 	}
 	head := fmt.Sprintf("DPT 251.600 %+v Pack=% x", *in, enc)
 	validity := byte(b2i(f[0])<<3 | b2i(f[1])<<2 | b2i(f[2])<<1 | b2i(f[3]))
@@ -697,4 +712,32 @@ func runStrings(r *enumlib.Run, s *spec) (evals, nontrivial, withNUL int64) {
 		}
 	}
 	return
+}
+
+// reusedReceiver: "self-decodable" must not depend on what the receiving value held before. The
+// encoding is decoded once more, into a copy of the value it came from (a receiver that is not
+// fresh and may hold out-of-range members); the verdict and the result must be those of the fresh
+// receiver.
+func reusedReceiver(in, out dpt.Datapoint, enc []byte, errFresh error) (mech, msg string) {
+	iv := reflect.ValueOf(in)
+	if iv.Kind() != reflect.Ptr {
+		return "", ""
+	}
+	cp := reflect.New(iv.Elem().Type())
+	cp.Elem().Set(iv.Elem())
+	rec, ok := cp.Interface().(dpt.Datapoint)
+	if !ok {
+		return "", ""
+	}
+	var err error
+	if p, v := enumlib.Try(func() { err = rec.Unpack(enc) }); p {
+		return "panic", fmt.Sprintf("%T %+v Pack=% x: decoding that into a receiver that holds the same value panicked: %s", in, iv.Elem().Interface(), enc, v)
+	}
+	if (err == nil) != (errFresh == nil) {
+		return "undecodable", fmt.Sprintf("%T %+v Pack=% x: a fresh receiver says %v, a receiver that holds the value itself says %v", in, iv.Elem().Interface(), enc, errFresh, err)
+	}
+	if err == nil && !reflect.DeepEqual(cp.Elem().Interface(), reflect.ValueOf(out).Elem().Interface()) {
+		return "roundtrip", fmt.Sprintf("%T %+v Pack=% x decodes to %+v in a fresh receiver and to %+v in a receiver that held the value itself", in, iv.Elem().Interface(), enc, reflect.ValueOf(out).Elem().Interface(), cp.Elem().Interface())
+	}
+	return "", ""
 }
